@@ -43,6 +43,8 @@ BASE = ["L:AOTP_UT_rasterized:none", "L:AOTP_UT_uniform:n", "L:AOTP_CTT_indexed:
 TOKSETS = {"ALL15": ALL15, "BASE": BASE}
 for _i, _mode in enumerate(MODES):
     TOKSETS[f"MODE{_i}"] = [t for t in ALL15 if t.split(":")[1] == _mode]
+for _i, _t in enumerate(BASE):
+    TOKSETS[f"BASE{_i}"] = [_t]
 
 _TOK_CACHE: dict = {}
 
@@ -634,7 +636,7 @@ def _est_kinds(policy, n):
 
 def _weight(n):
     e = n * n
-    return 1.0 if e <= 16 else (e / 9.0) ** 1.15
+    return max(1.0, (e / 9.0) ** 1.15)
 
 
 def block(space, graphs, kinds, toks, answers, tier, budget):
@@ -711,15 +713,18 @@ def plan(tier, dfs44):
                               graphs=[g], kinds="L", toks=f"MODE{k}", answers="few"))
     # dataset level
     seqs2 = [list(s) for k in (1, 2, 3) for s in itertools.product(range(3), repeat=k)]
-    dev_seqs = [[0, 1, 2], [2, 2], [1]] if quick else seqs2
+    dev_seqs = [[0, 1, 2], [2, 2], [1]]
     for i in range(0, len(seqs2), 13):
         T.append(dict(what="ds", tier=tier, pool="p2", seqs=seqs2[i:i + 13], toks="ALL15", answers="id"))
-    for i in range(0, len(dev_seqs), 3):
-        for k in range(3):
-            T.append(dict(what="ds", tier=tier, pool="p2", seqs=dev_seqs[i:i + 3], toks=f"MODE{k}", answers="dev1"))
+    for k in range(3):
+        T.append(dict(what="ds", tier=tier, pool="p2", seqs=dev_seqs, toks=f"MODE{k}", answers="dev1"))
     T.append(dict(what="ds", tier=tier, pool="p3", seqs=[[0, 1, 2, 3], [3, 1]], toks="ALL15", answers="id"))
     if not quick:
-        T.append(dict(what="ds", tier=tier, pool="p3", seqs=[[2, 0, 3]], toks="BASE", answers="dev1"))
+        rest = [q for q in seqs2 if q not in dev_seqs]
+        for i in range(0, len(rest), 4):
+            T.append(dict(what="ds", tier=tier, pool="p2", seqs=rest[i:i + 4], toks="BASE", answers="dev1"))
+        for k in range(len(BASE)):
+            T.append(dict(what="ds", tier=tier, pool="p3", seqs=[[2, 0, 3]], toks=f"BASE{k}", answers="dev1"))
     T.append(dict(what="ds", tier=tier, pool="p11", seqs=[[0, 1], [1]], toks="ALL15", answers="id"))
     return T, dict(graphs_2x2=dict(trees=len(t2), cyclic=len(c2), disconnected=len(d2)),
                    graphs_3x3=dict(trees=len(t3), cyclic_connected=len(c3), disconnected_with_all_indices=len(d3)))
@@ -730,7 +735,7 @@ def run(ctx):
     tasks, info = plan(ctx.tier, dfs44)
     for i, t in enumerate(tasks):
         t["id"] = i
-        t["primary"] = t["toks"] in ("ALL15", "BASE", "MODE0") and t.get("mslice", [0])[0] == 0
+        t["primary"] = t["toks"] in ("ALL15", "BASE", "MODE0", "BASE0") and t.get("mslice", [0])[0] == 0
     ctx.pmap(MOD, "task", tasks)
     c = ctx.res.counters
     spaces = {}
